@@ -220,10 +220,12 @@ def honours(tr, vals, pos, n, s, tol=1e-5):
         elif nm in ("bisect", "omega"):
             continue
         else:
+            if nm in ("qaz", "naz", "psi", "tau") and nm not in pp:
+                continue    # the pseudo-angle is undefined at this position (pole of its azimuth): nothing to honour
             got = pp.get(nm, float("nan"))
             if math.isnan(got) or angdiff(got, vals[nm]) > tol:
                 bad.append(f"{nm} evaluates to {got:.6f} instead of {vals[nm]:.6f}")
-    if "bisect" in tr:
+    if "bisect" in tr and "qaz" in pp:
         m, e = radians(pos[0]), radians(pos[3])
         th, qz = radians(pp["theta"]), radians(pp["qaz"])
         if "omega" in tr:
@@ -260,14 +262,13 @@ def regular(ub, tr, P, wl=1.0):
             elif nm == "bin_eq_bout":
                 out.append(radians(pp["betain"] - pp["betaout"]))
             elif nm == "bisect" and "omega" not in tr:
-                m, e = radians(p[0]), radians(p[3]); th, qz = radians(pp["theta"]), radians(pp["qaz"])
+                m, e = radians(p[0]), radians(p[3]); th, qz = radians(pp["theta"]), radians(pp.get("qaz", 0.0))
                 # eliminate omega: tan(mu)/cos(qaz) = tan(tho), sin(eta)/sin(qaz) = sin(tho)
                 out.append(sin(e) * cos(m) * cos(qz) - sin(m) * sin(qz) * math.sqrt(max(0.0, 1 - min(1.0, (sin(e) / sin(qz)) ** 2))) if abs(sin(qz)) > 1e-9 else 0.0)
             elif nm == "bisect":
-                m = radians(p[0]); th, qz = radians(pp["theta"]), radians(pp["qaz"])
                 out.append(0.0)  # handled together with omega below
             elif nm == "omega":
-                m, e = radians(p[0]), radians(p[3]); th, qz = radians(pp["theta"]), radians(pp["qaz"])
+                m, e = radians(p[0]), radians(p[3]); th, qz = radians(pp["theta"]), radians(pp.get("qaz", 0.0))
                 out.append(sin(e) - sin(th + radians(0)) * sin(qz))
             else:
                 v = pp.get(nm, float("nan"))
